@@ -1,8 +1,9 @@
-from . import error_rules as er
+from . import misc_rules as ms
 META = {}
 def run(rep):
-    er.rule_messages(rep)
-    er.rule_cap(rep)
-    er.rule_handle_external(rep)
-    er.rule_noast(rep)
-    er.rule_stream(rep)
+    ms.rule_generator(rep)
+    ms.rule_shared(rep)
+    ms.rule_inst(rep)
+    ms.rule_parse_resets(rep)
+    ms.rule_det(rep)
+    ms.rule_formatter(rep)
